@@ -1,12 +1,21 @@
 #!/bin/bash
 # Re-evaluate every seeded change against the quick check of the property it breaks; where a directory also holds a
 # property-preserving change (benign.diff), the same check must stay silent on it.
-# usage: [VERIF_REPO=<scratch copy of /repo>] tools/seeded_regress.sh   (default: /repo itself, patched and reverted one at a time)
+# usage: [VERIF_REPO=<scratch copy of /repo>] [REGRESS_ORDER="Cxx ..."] tools/seeded_regress.sh   (default: /repo itself, patched and reverted one at a time)
 R=${VERIF_REPO:-/repo}
 cd "$(dirname "$0")/.."
 V=$(pwd)
 pass=0; fail=0; bok=0; bbad=0
-for d in seeded/*/; do
+# REGRESS_ORDER="C13 C07 ..." evaluates the directories of those properties first (the rest follow in name order)
+DIRS=$(python3 - <<PY
+import os
+order = os.environ.get('REGRESS_ORDER', '').split()
+ds = sorted(d for d in os.listdir('seeded') if os.path.isdir(os.path.join('seeded', d)))
+key = lambda d: (order.index(d[:3]) if d[:3] in order else len(order), d)
+print(' '.join('seeded/%s/' % d for d in sorted(ds, key=key)))
+PY
+)
+for d in $DIRS; do
   n=$(basename $d)
   prop=$(python3 -c "import json;m=json.load(open('$d/meta.json'));print(m.get('evaluate_with',m['property']))")
   renv=$(python3 -c "import json;m=json.load(open('$d/meta.json'));print(m.get('regress_env',''))")
